@@ -12,6 +12,7 @@ use vp_common::refcodec::{Pkt, W};
 use vp_common::report::par_map;
 use vp_common::{Cli, Report, Rng};
 use vp_sim::client::{Act, CookieAnswer, EncVariant, Out};
+use vp_sim::recadapters::{LocalizeScript, Outcome};
 
 #[derive(Clone, Debug)]
 struct Case {
@@ -338,6 +339,38 @@ fn generate(cli: &Cli) -> Vec<Case> {
                         let mut v = sc.clone();
                         v.client.enc = EncVariant::SecretLen(n);
                         out.push(Case { sc: v, state: format!("{}/login-encryption-response", shape.name), class: "secret-size", detail: n.to_string(), must_err: true, refuse_after: None, max_frame });
+                    }
+                    // a verify token that decrypts correctly under the server key but has another length
+                    for n in [0usize, 1, 16, 31, 33, 64, 117] {
+                        let mut v = sc.clone();
+                        v.client.enc = EncVariant::WrongToken(rng.bytes(n));
+                        out.push(Case { sc: v, state: format!("{}/login-encryption-response", shape.name), class: "decryptable-token-of-other-length", detail: n.to_string(), must_err: true, refuse_after: None, max_frame });
+                    }
+                    // 8. text that is the client's to choose and that the server interprets: the locale
+                    // of Client Information, looked up in the repository's localization tables when a
+                    // message has to be rendered (no target to send the player to)
+                    if max_frame >= 300 {
+                        if let Some(pos) = positions.iter().find(|p| p.state == "encrypted-client-information") {
+                            let long = "x".repeat(200);
+                            let locales: Vec<&str> = vec![
+                                "", "x", "_", "__", "a_", "_b", "en_", "aé", "é", "€", "€_€", "😀", "d😀", "\u{0}", "\u{0}\u{0}_\u{0}", "en_US_POSIX", "zh_hant_tw_x_y", "EN", "eN_uS", " en", "en us", "en-US", "%s", "{}",
+                                "{locale}", "../en", &long, "\u{feff}en", "e\u{301}n_us", "ß_SS", "İ_i",
+                            ];
+                            for loc in locales {
+                                let mut v = apply(&sc, pos, vec![Out::Pkt(client_information(loc))], false);
+                                v.adapters.discovery = Outcome::Ok(vec![]);
+                                v.adapters.discovery_latency = Duration::ZERO;
+                                v.adapters.localize = LocalizeScript::Table {
+                                    default_locale: "en_US".into(),
+                                    messages: vec![
+                                        ("en".into(), vec![("disconnect_no_target".into(), "{\"text\":\"no target\"}".into()), ("disconnect_timeout".into(), "{\"text\":\"timeout\"}".into())]),
+                                        ("en_US".into(), vec![("disconnect_no_target".into(), "{\"text\":\"no target (US)\"}".into())]),
+                                        ("de".into(), vec![("disconnect_no_target".into(), "{\"text\":\"kein Ziel\"}".into())]),
+                                    ],
+                                };
+                                out.push(Case { sc: v, state: format!("{}/encrypted-client-information", shape.name), class: "hostile-locale-rendered", detail: format!("{:?}", loc.chars().take(12).collect::<String>()), must_err: false, refuse_after: None, max_frame });
+                            }
+                        }
                     }
                 }
             }
